@@ -307,6 +307,7 @@ class Ctx:
         self.violations: List[dict] = []
         self.known_printed: List[str] = []
         self.disagreements = 0
+        self.drifts: List[dict] = []
         self.extra: dict = {}
         self.exhaustive_spaces: List[str] = []
         self.findings = KnownFindings()
@@ -352,6 +353,10 @@ class Ctx:
 
     def violation(self, what: str, replay: dict, found_input: bool = True):
         """Record a violation, write its replay file and print the VIOLATION line."""
+        if len(self.violations) >= 20 and found_input:
+            # enough replay files for one run; keep counting
+            self.violations.append({'what': what, 'replay': None, 'found_input': found_input})
+            return
         os.makedirs(REPLAY_DIR, exist_ok=True)
         body = dict(replay)
         body.update({'property': self.pid, 'what': what, 'seed': self.seed, 'tier': self.tier,
@@ -364,6 +369,24 @@ class Ctx:
         suffix = '' if found_input else ' no-failing-input-found'
         print('VIOLATION property=%s replay=%s%s' % (self.pid, path, suffix), flush=True)
         print('  ' + what[:400], flush=True)
+
+    def drift(self, correspondence: str, case: Any, impl: Any, model: Any):
+        """Model and implementation differ on `case` but the judge found no property violation there.
+        Not a violation by itself: collected, and turned into one `no-failing-input-found` report at
+        the end of the run if the failing-input search did not produce a concrete violation."""
+        self.disagreements += 1
+        self.drifts.append({'correspondence': correspondence, 'case': case, 'impl': impl, 'model': model})
+
+    def finish(self):
+        """Called by ./check after the property module's run()."""
+        if self.drifts and not any(v['found_input'] for v in self.violations):
+            names = sorted({d['correspondence'] for d in self.drifts})
+            self.violation('correspondence no longer checks: model QP.%s and implementation differ on %d case(s) '
+                           '[%s]; the theorems in QP.Props.%s therefore no longer cover the code; the failing-input '
+                           'search found no input on which the implementation violates the property'
+                           % (self.pid, len(self.drifts), ', '.join(names), self.pid),
+                           {'broken': names, 'theorems_no_longer_tied': 'QP.Props.%s' % self.pid,
+                            'first_differences': self.drifts[:10]}, found_input=False)
 
     # -- corpus -----------------------------------------------------------------------------
     def corpus(self) -> List[dict]:
